@@ -1021,3 +1021,9 @@ mod test {
         println!("bytes_sent {bytes_sent}");
     }
 }
+
+/// Verification harness (child module: reaches the private noise sampler). `--cfg ipa_verif` only.
+#[cfg(all(test, ipa_verif))]
+pub(crate) mod verif_h4 {
+    include!(concat!(env!("IPA_VERIF_DIR"), "/harness/h4_dp.rs"));
+}
